@@ -192,6 +192,25 @@ def polygons(ctx):
     for vs in ([], [(1, 1)], [(0, 0), (2, 2)], [(0, 0), (2, 0), (4, 0)], [(0, 0), (2, 0), (2, 0), (0, 2)],
                [(0, 0), (0, 0), (0, 0)], [(0, 0), (3, 0), (3, 3), (0, 3), (0, 0)]):
         out.append(("degenerate", vs))
+    # long edges (extent 22..60): every lattice point of such an edge must be classified as boundary; inexact
+    # (floating point) collinearity tests only start to fail at this size
+    from math import gcd
+    dirs = [(dx, dy) for dx in range(0, 8) for dy in range(-7, 8)
+            if (dx, dy) != (0, 0) and gcd(dx, abs(dy)) == 1 and not (dx == 0 and dy < 0)]
+    for _ in range(ctx.n(80, 1500)):
+        dx, dy = ctx.rng.choice(dirs)
+        ext = max(abs(dx), abs(dy))
+        m = ctx.rng.randint((22 + ext - 1) // ext, 60 // ext)
+        ox, oy = ctx.rng.randint(-2, 2), ctx.rng.randint(-2, 2)
+        if dy < 0:
+            oy += 60                   # keep every coordinate inside [-2, 62]
+        u, v = (ox, oy), (ox + m * dx, oy + m * dy)
+        t = ctx.rng.randint(1, 3)
+        w = (u[0] - t * dy, u[1] + t * dx)
+        if not all(-60 <= c <= 63 for q in (u, v, w) for c in q):
+            continue
+        vs = [u, v, w] if ctx.rng.random() < 0.5 else [w, v, u]
+        out.append(("long-edge", vs))
     # random larger polygons: star-shaped (simple by construction unless collinear) and arbitrary
     import math
     for _ in range(ctx.n(500, 6000)):
@@ -216,6 +235,22 @@ def sample_points(ctx, kind, vs):
         return [(x, y) for x in range(-1, 3) for y in range(-1, 3)]
     if kind.startswith("4x4"):
         return [(x, y) for x in range(4) for y in range(4)]
+    if kind.startswith("long-edge"):
+        from math import gcd
+        u, v = vs[0], vs[1]
+        if max(abs(vs[2][0] - vs[1][0]), abs(vs[2][1] - vs[1][1])) > max(abs(v[0] - u[0]), abs(v[1] - u[1])):
+            u, v = vs[2], vs[1]
+        m = gcd(abs(v[0] - u[0]), abs(v[1] - u[1]))
+        dx, dy = (v[0] - u[0]) // m, (v[1] - u[1]) // m
+        js = ctx.rng.sample(range(m + 1), min(12, m + 1))
+        pts = [(u[0] + j * dx, u[1] + j * dy) for j in js]
+        pts += [(u[0] - dx, u[1] - dy), (u[0] + (m + 1) * dx, u[1] + (m + 1) * dy),
+                (u[0] + dx + 1, u[1] + dy), (u[0] + dx, u[1] + dy + 1)]
+        pts = [q for q in pts if all(-64 <= c <= 63 for c in q)]
+        while len(pts) < NP:
+            j = ctx.rng.randint(0, m)
+            pts.append((u[0] + j * dx, u[1] + j * dy))
+        return pts[:NP]
     pts = list(vs[:6])
     for i in range(len(vs)):
         a, b = vs[i], vs[(i + 1) % len(vs)]
@@ -230,13 +265,62 @@ def sample_points(ctx, kind, vs):
     return pts[:NP]
 
 
+def segment_sweep(ctx, vec):
+    """implementation alone: tween2(p, u, v) against `cross == 0 and p in the bounding box`, for every primitive
+    direction with |dx|,|dy| <= 7 (thorough: 12), every multiple with extent <= 60 (so extents >= 22 are swept,
+    where a floating point collinearity test first goes wrong), every lattice point of the segment and the
+    neighbouring off-segment points.  A disagreement is then shown on a triangle having that segment as an edge."""
+    from math import gcd
+    D = ctx.n(7, 12)
+    bad = []
+    for dx in range(0, D + 1):
+        for dy in range(-D, D + 1):
+            if (dx, dy) == (0, 0) or gcd(dx, abs(dy)) != 1 or (dx == 0 and dy < 0):
+                continue
+            ext = max(abs(dx), abs(dy))
+            for m in range(1, 60 // ext + 1):
+                for u in ((0, 0), (-3, 5)):
+                    v = (u[0] + m * dx, u[1] + m * dy)
+                    cand = [(u[0] + j * dx, u[1] + j * dy) for j in range(-1, m + 2)]
+                    cand += [(u[0] + j * dx + 1, u[1] + j * dy) for j in (0, m // 2, m)]
+                    ctx.case({"seg": [u, v], "points": len(cand)}, nontrivial=False, kind="segment-sweep")
+                    for p in cand:
+                        want = on_seg(p, u, v)
+                        try:
+                            got = vec.tween2(p, u, v)
+                        except Exception as ex:
+                            got = "%s: %s" % (type(ex).__name__, ex)
+                        if got is not want:
+                            bad.append((ext * m, p, u, v, got, want))
+    out = []
+    for _, p, u, v, got, want in sorted(bad)[:3]:
+        w = (u[0] - (v[1] - u[1]) // max(1, gcd(abs(v[0] - u[0]), abs(v[1] - u[1]))),
+             u[1] + (v[0] - u[0]) // max(1, gcd(abs(v[0] - u[0]), abs(v[1] - u[1]))))
+        vs = [u, v, w]
+        d = {"p": p, "vs": vs, "segment": [u, v], "tween2": got, "exact_on_segment": want,
+             "why": "tween2 disagrees with exact integer geometry (cross product = 0 and inside the bounding box)"}
+        try:
+            obs, wn = observe(vec, p, vs)
+            exp = expected(p, vs)
+            d.update({"observed": obs, "wind": wn, "expected": exp,
+                      "differs": sorted(k for k in exp if bool(obs[k]) != exp[k])})
+        except Exception as ex:
+            d["predicates_raised"] = "%s: %s" % (type(ex).__name__, ex)
+        out.append(d)
+    ctx.extra["segment_sweep_disagreements"] = len(bad)
+    return out
+
+
 def run(ctx):
     ctx.rule = ("vertex lists (all triangles + quads on the 3x3 grid, sampled/all 3-5-gons on the 4x4 grid, degenerate "
-                "lists, random star-shaped and arbitrary polygons with <= 8 vertices, |coord| <= 20) x 16 points each "
+                "lists, triangles with one long edge (extent 22..60, lattice points of the edge as sample points), random "
+                "star-shaped and arbitrary polygons with <= 8 vertices, |coord| <= 20) x 16 points each "
                 "(whole grid; or vertices, integer edge midpoints, ray-level points, random points). One case = one "
                 "(polygon, 16 points) row: the 7 predicates + wind of the real functions vs the generated functions "
                 "(vm_compute), and vs the exact integer oracle when the polygon is simple. non-trivial = simple polygon "
-                "with at least one strictly-inside, one boundary and one outside sample point")
+                "with at least one strictly-inside, one boundary and one outside sample point. Plus a segment sweep on the "
+                "implementation alone: tween2 vs exact integer on-segment for all primitive directions (|d| <= 7, "
+                "thorough 12) x all multiples up to extent 60 x all lattice points of the segment and neighbours")
     ctx.assumptions = [
         "points are 2-tuples of Python ints, polygons are lists of such tuples (the translator's type table)",
         "no Jordan-curve theorem: agreement with exact geometry for ARBITRARY simple polygons is proved only up to "
@@ -293,6 +377,8 @@ def run(ctx):
         if good:
             rows.append(row)
             metas.append((vs, pts))
+    for v in segment_sweep(ctx, vec):
+        viol.append(v)
     if viol:
         v = min(viol, key=lambda d: (len(d["vs"]), sum(abs(c) for q in d["vs"] for c in q)))
         ctx.tie_broken("correspondence", "vectoring predicates vs exact oracle on a simple polygon", repr(v))
